@@ -94,13 +94,17 @@ def trace_syscalls():
         return names
 
 
-def run_traced(argv, cwd, log_path, stdin_data=None, env=None, timeout=TIMEOUT):
-    """Run argv under strace. -> dict(rc, stdout, stderr, timed_out, log_text)."""
+def run_traced(argv, cwd, log_path, stdin_data=None, env=None, timeout=TIMEOUT, stdin_path=None):
+    """Run argv under strace. -> dict(rc, stdout, stderr, timed_out, log_text).
+    stdin_path: redirect stdin from that regular file (`< file`) instead of feeding a pipe."""
     cmd = ["strace", "-f", "-qq", "-o", log_path, "-e", "trace=" + ",".join(trace_syscalls())] + list(argv)
     timed_out = False
+    stdin_f = open(stdin_path, "rb") if stdin_path is not None else None
     p = subprocess.Popen(cmd, cwd=cwd, env=env if env is not None else child_env(),
-                         stdin=subprocess.PIPE if stdin_data is not None else subprocess.DEVNULL,
+                         stdin=stdin_f if stdin_f is not None else subprocess.PIPE if stdin_data is not None else subprocess.DEVNULL,
                          stdout=subprocess.PIPE, stderr=subprocess.PIPE, start_new_session=True)
+    if stdin_f is not None:
+        stdin_f.close()
     try:
         out, err = p.communicate(stdin_data, timeout=timeout)
     except subprocess.TimeoutExpired:
@@ -339,9 +343,9 @@ def observe(events, cwd):
     return obs
 
 
-def observed_run(argv, cwd, log_path, stdin_data=None, env=None):
+def observed_run(argv, cwd, log_path, stdin_data=None, env=None, stdin_path=None):
     """run_traced + parse + observe, with the model checks that make the interpretation valid."""
-    r = run_traced(argv, cwd, log_path, stdin_data=stdin_data, env=env)
+    r = run_traced(argv, cwd, log_path, stdin_data=stdin_data, env=env, stdin_path=stdin_path)
     events, unparsed = parse_log(r["log_text"])
     if unparsed:
         raise Machinery("unparsed strace lines, e.g. %r" % unparsed[:3])
@@ -494,7 +498,9 @@ VARIANTS = {
                 "--max-chunk-size", "2KiB", "--rolling-window-size", "16B", "--compression", "zstd"],
 }
 
-CLONE_MODES = ["plain", "force", "seed1", "seed2", "stdin-seed", "in-place", "seed+in-place"]
+CLONE_MODES = ["plain", "force", "seed1", "seed2", "stdin-seed", "in-place", "seed+in-place",
+               # stdin redirected from a regular file (`< seed.bin`) instead of a pipe, alone and in place
+               "stdin-file-seed", "stdin-file-seed+in-place"]
 LOCS = ["local", "http"]
 VERIFY = ["none", "verify-output", "verify-header"]
 STYLES = ["rel", "abs"]
@@ -529,7 +535,7 @@ def variant_args(name, comps):
 
 # clones that fail AFTER the output has been opened: the promise "nothing is removed or renamed, no
 # other file is written" holds for them as well
-FAIL_MODES = ["fail-missing-seed", "fail-corrupt-chunk", "fail-corrupt-chunk-in-place",
+FAIL_MODES = ["fail-missing-seed", "fail-missing-seed-in-place", "fail-corrupt-chunk", "fail-corrupt-chunk-in-place",
               "fail-dangling-symlink", "fail-busy-executable"]
 
 
@@ -638,6 +644,10 @@ def run_clone_case(env_, case, case_dir, log_path):
         busy = subprocess.Popen([out_abs, "30"], stdin=subprocess.DEVNULL, stdout=subprocess.DEVNULL, stderr=subprocess.DEVNULL)
     if mode == "fail-missing-seed":
         argv += ["--seed", P(os.path.join("seeds", "no-such-seed.bin"))]
+    if mode == "fail-missing-seed-in-place":
+        argv += ["--seed-output", "--seed", P(os.path.join("seeds", "no-such-seed.bin"))]
+        with open(out_abs, "wb") as f:
+            f.write(mat["prior"])
     if mode == "fail-corrupt-chunk-in-place":
         argv.append("--seed-output")
         with open(out_abs, "wb") as f:
@@ -658,7 +668,14 @@ def run_clone_case(env_, case, case_dir, log_path):
     if mode == "stdin-seed":
         argv += ["--seed", "-"]
         stdin_data = mat["stdin"]
-    if mode in ("in-place", "seed+in-place"):
+    stdin_path = None
+    if mode in ("stdin-file-seed", "stdin-file-seed+in-place"):
+        argv += ["--seed", "-"]
+        stdin_path = os.path.join(case_dir, "seeds", "stdin.bin")
+        with open(stdin_path, "wb") as f:
+            f.write(mat["stdin"])
+        readonly.append(stdin_path)
+    if mode in ("in-place", "seed+in-place", "stdin-file-seed+in-place"):
         argv.append("--seed-output")
         with open(out_abs, "wb") as f:
             f.write(mat["prior"])
@@ -683,7 +700,7 @@ def run_clone_case(env_, case, case_dir, log_path):
         argv.insert(1, case["verbose"])
     before = snapshot(case_dir)
     try:
-        r = observed_run(argv, case_dir, log_path, stdin_data=stdin_data)
+        r = observed_run(argv, case_dir, log_path, stdin_data=stdin_data, stdin_path=stdin_path)
     finally:
         if busy is not None:
             busy.kill()
